@@ -181,12 +181,12 @@ def outcome_signature(step_or_died):
             return {"kind": "outcome", "class": "panic",
                     "message": strip_numbers(hook.get("msg", ""))[:120],
                     "frame": panic_site(hook.get("loc"), hook.get("frame"))}
-        tail = d.get("stderr_tail", "")
+        tail = d.get("stderr_tail", "") + d.get("stderr_head", "")
         if "overflowed its stack" in tail:
             return {"kind": "outcome", "class": "stack-overflow"}
         m = re.search(r"memory allocation of \d+ bytes failed", tail)
         if m:
-            return {"kind": "outcome", "class": "alloc-abort"}
+            return {"kind": "outcome", "class": "alloc-abort", "frame": d.get("first_repo_frame", "")}
         if d.get("watchdog"):
             return {"kind": "outcome", "class": "watchdog"}
         if d.get("signal") == 24:  # SIGXCPU
